@@ -74,6 +74,10 @@ def mutate(rnd, b):
 NAMES = [b'a', b'a b', b'@', b'a@', b'@b', b'a@b@c', b'.', b'..x', b'.hidden', b'x.y.z', b'\xff\xfe', b'n\xffx', b'\xc3\xa9', b'a' * 200, b'-', b'%n', b'a\\x2db', b'a\nb', b'"q"', b"'", b'[x]', b'=', b'#']
 
 
+# directories (below the search directory) the files are put in: the walk descends into them; their names are data too
+SUBDIRS = [b'', b'', b'', b'sub', b'sub\xff', b'\xfe\xff/deep', b'a\nb', b' ', b'x' * 200, b'\xc3\xa9/\xc3', b'.hid', b'a.container', b'b.d', b'%n', b'"q"']
+
+
 def corr_ops(ctx):
     """hook driver under catch_unwind: structured adversarial units of all types, alone and in sets"""
     rnd = ctx.rnd
@@ -147,9 +151,13 @@ def oracle(ctx):
                 content = adv_unit(rnd, ctx.tables, ty).encode('utf-8', 'surrogateescape')
             else:
                 content = bytes(rnd.randrange(256) for _ in range(rnd.randint(0, 200)))
-            files[b'src/' + name] = content
+            sub = rnd.choice(SUBDIRS)
+            d = b'src/' + (sub + b'/' if sub else b'')
+            files[d + name] = content
             if rnd.random() < 0.3:
-                files[b'src/' + name + b'.d/' + rnd.choice([b'10.conf', b'\xff.conf', b'sub/n.conf', b'x.txt'])] = mutate(rnd, content)
+                # drop-ins next to the unit, or in the top directory for a unit in a sub-directory
+                dd = rnd.choice([d, b'src/'])
+                files[dd + name + b'.d/' + rnd.choice([b'10.conf', b'\xff.conf', b'sub/n.conf', b'x.txt', b'\xff\xfe/n.conf'])] = mutate(rnd, content)
         trees_.append(files)
 
     def run(files):
